@@ -494,6 +494,17 @@ fn inner(w: &mut World, db: usize, name: &str, a: &[Bytes], reply: &Reply) -> Re
             } else {
                 None
             };
+            if let Some(c) = count {
+                if c < -(1 << 20) {
+                    // a negative count asks for exactly |count| elements; beyond what a reply can
+                    // hold the only acceptable answer is a refusal (never a crash)
+                    w.label("absurd-count");
+                    if !w.exists(db, &a[1]) && matches!(reply, Reply::Frame(Frame::Array(v)) if v.is_empty()) {
+                        return Ok(());
+                    }
+                    return chk_err(reply);
+                }
+            }
             match typed!(w, db, &a[1], Val::Set) {
                 Err(()) => wrong_type(w, reply),
                 Ok(None) => match count {
